@@ -127,11 +127,7 @@ func repHex(b string, n int) string {
 }
 
 func nested(depth int) *Node {
-	n := nL()
-	for i := 0; i < depth; i++ {
-		n = nL(n)
-	}
-	return n
+	return &Node{IsList: true, Nest: depth}
 }
 
 func sortedNodeKeys(m map[string]*Node) []string {
